@@ -84,6 +84,21 @@ def run(tier, seed, replay=None):
                 if nlit <= 6:
                     res.violation({"property": PID, "kind": "a literal does not denote what is written: " + l["why"], "source": l["src"],
                                    "parsed_as": l["got"], "expected": l["want"], "how_to_replay": "parser.ParseSrc(source); the LiteralExpr's value"})
+        # parser.go must be what goyacc makes of parser.go.y (the precedence obligation talks about the .y file)
+        regen = "goyacc unavailable"
+        gy = common.build_goyacc()
+        if gy:
+            gd = os.path.join(scratch, "gy")
+            os.makedirs(gd)
+            shutil.copy(os.path.join(common.REPO, "parser", "parser.go.y"), gd)
+            pg = common.sh([gy, "-o", "parser.go", "parser.go.y"], cwd=gd, check=False, timeout=300)
+            pf = common.sh(["gofmt", "parser.go"], cwd=gd, check=False)
+            cur = open(os.path.join(common.REPO, "parser", "parser.go")).read()
+            regen = "identical" if pf.returncode == 0 and pf.stdout == cur else "differs"
+            if regen == "differs":
+                res.violation({"property": PID, "kind": "parser/parser.go is not the goyacc output of parser/parser.go.y: the compiled tables and the grammar source disagree",
+                               "goyacc": pg.stdout[-500:], "note": "the behavioural comparison above ran against the compiled parser.go"},
+                              "" if (nprob or nmodel) else "no-failing-input-found")
         if bad:
             res.violation({"property": PID, "kind": "forbidden construct in the Coq development", "lines": bad}, "no-failing-input-found")
         if ob["failed"] and not res.violations:
@@ -100,8 +115,8 @@ def run(tier, seed, replay=None):
             "checker_cmd": "make -C coq; coqc Properties/C03.v; per run: harness c03 regenerates AnkoGen/GenPrec.v from parser.go.y, coqc Obligations/C03.v; "
                            "extracted entries c03 (minp/full printing) and c03p (model parser); real parser.ParseSrc and vm.Execute",
             "trusted_base": common.TRUSTED_COMMON + [
-                "reading of the %left/%right lines and the expr_unary %prec annotations of parser.go.y (harness/c03.go c03GenPrec); that parser.go is "
-                "the goyacc output of parser.go.y is not re-checked here: the behavioural comparison runs against the compiled parser.go",
+                "reading of the %left/%right lines and the expr_unary %prec annotations of parser.go.y (harness/c03.go c03GenPrec); parser.go is "
+                "re-generated with goyacc (x/tools v0.29.0 from the module cache) and must equal the committed file",
                 "AST -> model tree conversion harness/c03.go c03FromAst (CallExpr{Name} = call of an identifier)"],
             "evaluations": len(recs) * 4 + len(mlines) + len(lits), "distinct_nontrivial": len(set(r["tree"] for r in recs)),
             "rule": "directed: the complete 19x19 binary pair matrix in both groupings, ternary in every position of every operator, every prefix "
@@ -110,7 +125,7 @@ def run(tier, seed, replay=None):
                     "(and minimal with compact spacing), parsed by the real parser and compared with the tree (parentheses dropped); every third "
                     "tree also inside one of 10 statement positions; both spellings evaluated by vm.Execute and compared; the model parser is run "
                     "on the real scanner's tokens and on a mutated token list (accept/reject and tree); literals: value first (boundary and random int64 in decimal / hex / binary, with and without minus; float64 in e/f/g formats; strings over an alphabet with every escape, quoted both ways and raw), then its spelling, parsed back and compared; unrepresentable and malformed spellings must be rejected" % meta["directed"],
-            "trees": len(recs), "trees_with_problems": nprob, "literals": len(lits), "literal_mismatches": nlit, "model_vs_real_disagreements": nmodel, "both_accept": both_accept,
+            "parser_go_regenerated_from_y": regen, "trees": len(recs), "trees_with_problems": nprob, "literals": len(lits), "literal_mismatches": nlit, "model_vs_real_disagreements": nmodel, "both_accept": both_accept,
             "both_reject": both_reject, "outside_model_grammar": outside, "value_kinds": vals, "prec_lines": meta["prec"]["prec_lines"],
             "samples": [{"tree": r["tree"], "min": r["min"], "full": r["full"], "value": r.get("value")} for r in recs[1500:1503]],
             "make_ok": ok_make,
